@@ -219,9 +219,9 @@ func c16fen(c *Ctx) {
 func init() {
 	register(&CheckSpec{
 		ID: "C16", Fn: c16, Resume: true,
-		Rule:        "FEN: every string from (a) FENs of legal corpus positions (must round-trip exactly), (b) grammar-aware mutations (truncation at every length, rank over/underflow, digits 0/9, rank count, all 64 ep squares, ep garbage, counter overflow/negative, bad side/castling fields, missing fields, whitespace, replaced characters, separators), (c) random bytes; accepted results must re-parse from their own FEN to the same observables, be a fixpoint and be usable (IsAttacked, move generation, do/undo without panic); UCI: hostile sessions (see c16uci); distinct = distinct input strings / command lines; a quarter of the UCI sessions start cold (no isready or go before the script, so lazily created parts do not exist yet) and a fifth of the lines are preceded by a burst of 1-4 option commands (Use_Hash on/off, Hash resize, Clear Hash, ...) without isready in between; after 30% of the go / perft lines isready is sent before the stop and must be answered while the search runs; 30% of the go / perft lines are followed by 1-3 option commands while the search is still running",
+		Rule:        "FEN: every string from (a) FENs of legal corpus positions (must round-trip exactly), (b) grammar-aware mutations (truncation at every length, rank over/underflow, digits 0/9, rank count, all 64 ep squares, ep garbage, counter overflow/negative, bad side/castling fields, missing fields, whitespace, replaced characters, separators), (c) random bytes; accepted results must re-parse from their own FEN to the same observables, be a fixpoint and be usable (IsAttacked, move generation, do/undo without panic); UCI: hostile sessions (see c16uci); distinct = distinct input strings / command lines; a quarter of the UCI sessions start cold (no isready or go before the script, so lazily created parts do not exist yet) and a fifth of the lines are preceded by a burst of 1-4 option commands (Use_Hash on/off, Hash resize, Clear Hash, ...) without isready in between; after 30% of the go / perft lines isready is sent before the stop and must be answered while the search runs; 30% of the go / perft lines are followed by 1-3 option commands while the search is still running; one session in 12 ends with option commands switching move-count based heuristics, a position with more than 64 legal moves and a depth-8 search (node cap 1.5 M) whose bestmove is awaited",
 		Assumptions: []string{"'well-formed position' = all getters, the attack predicates and move generation work on it, and its FEN output re-parses to the same observables"},
-		Required:    []string{"legal_fens", "fen_accepted", "fen_rejected", "mut_truncated", "mut_rank-overflow", "mut_ep-square", "mut_digits", "mut_counters", "mut_random", "uci_sessions", "uci_lines", "uci_position_lines", "uci_probe_searches", "uci_cold_start_sessions", "uci_option_bursts", "uci_isready_before_stop", "uci_options_during_search"},
+		Required:    []string{"legal_fens", "fen_accepted", "fen_rejected", "mut_truncated", "mut_rank-overflow", "mut_ep-square", "mut_digits", "mut_counters", "mut_random", "uci_sessions", "uci_lines", "uci_position_lines", "uci_probe_searches", "uci_cold_start_sessions", "uci_option_bursts", "uci_isready_before_stop", "uci_options_during_search", "uci_deep_searches_on_crowded_boards"},
 		MinEvals:    20000,
 	})
 }
